@@ -33,7 +33,7 @@ type VerifCfg struct {
 	BatchSize   int
 	Workers     int
 	MaxRetries  int
-	MaxDelay    int // seconds; 0 = default
+	MaxDelay    int // seconds; 0 = not configured (default), -1 = configured as 0 (no delays between retries)
 	Watchers    int
 	DryRun      bool
 	Scratch     string // directory with upload source files
@@ -420,7 +420,10 @@ func VerifRunQueue(cfg VerifCfg, ch VerifChooser) *VerifObs {
 			apiClient:            cli,
 			batchClientAdapter:   &verifBatchClient{e: e},
 		}
-		if m.maxRetryDelay < 1 {
+		switch {
+		case cfg.MaxDelay == -1:
+			m.maxRetryDelay = 0 // lfs.transfer.maxretrydelay=0: no delays between retries (C15 part config-binding ties the key to this number)
+		case m.maxRetryDelay < 1:
 			m.maxRetryDelay = defaultMaxRetryDelay
 		}
 		m.RegisterNewAdapterFunc("basic", dir, func(name string, d Direction) Adapter {
@@ -668,7 +671,10 @@ func verifOracleC15(cfg VerifCfg, obs *VerifObs) {
 	v := func(fp, msg string) { obs.Violations = append(obs.Violations, fp+"|"+msg) }
 	cause := verifCause(obs)
 	maxDelay := time.Duration(cfg.MaxDelay) * time.Second
-	if cfg.MaxDelay < 1 {
+	switch {
+	case cfg.MaxDelay == -1:
+		maxDelay = 0
+	case cfg.MaxDelay < 1:
 		maxDelay = defaultMaxRetryDelay * time.Second
 	}
 	byOid := map[string][]VerifAttempt{}
